@@ -138,6 +138,26 @@ theorem intro_reaches_own_machine_partial (c : Cfg) (h : c.pl = .pub ∨ c.pl = 
     simp only [ownCfgs, List.mem_filter, mem_allCfgs, true_and, Bool.or_eq_true, beq_iff_eq]; exact h
   exact List.all_eq_true.mp tableI2 c hm
 
+/-- address changes: (1) the introduced peer's NAT mapping is renewed after the introducer learned it and it contacts
+    the introducer again from the new mapping — the introducer hands out, and sends the puncture request to, the NEW
+    address; (2) the requester's mapping is renewed while it is a known peer of the introducer — the response reaches,
+    and the puncture aims at, the new mapping; (3) the requester roams to another public ip (leaving, for placement
+    `same`, the box it shared with the introduced peer) — it adopts the new WAN estimate before classifying the
+    introduction.  In each case both end up in each other's get_peers() under the addresses that are valid NOW. -/
+theorem intro_reaches_after_address_change_partial (c : Cfg) :
+    mutualDyn (scriptIntroducedRemapped c) = true ∧ mutualDyn (scriptRequesterRemapped c) = true ∧
+    mutualDyn (scriptRequesterRoams c) = true := by
+  have h := of_all tableK c
+  simp only [Bool.and_eq_true] at h
+  exact ⟨of_all tableJ c, h.1, h.2⟩
+example : ((scriptRequesterRoams ⟨.portRestricted, .portRestricted, .same, false⟩).hosts[1]?.map (·.wan)) =
+    some ⟨ipv4 8 8 8 8, 45001⟩ := by decide +kernel
+
+/-- churn at an introducer without peer limit (max_peers = -1): the introduced peer's mapping is renewed, the introducer
+    drops it (Network.remove_peer) and verifies it again from its next request; the introduction then hands out the new
+    address and both end up verified -/
+theorem intro_reaches_after_churn_partial (c : Cfg) : mutualDyn (scriptChurn c) = true := of_all tableL c
+
 /-! ## requester states outside the tables in which the unchanged code FAILS (known findings, witnesses) -/
 
 /-- KNOWN FINDING (a), negation of the full statement: R and P behind one box (both port-restricted, old style, the
@@ -292,8 +312,8 @@ theorem own_machine_handed_out_with_wan_ip (s : SelfView) (q : PeerView) (h : s.
     Gen.introAddrs s q = (q.address, ⟨s.my_estimated_wan.ip, q.address.port⟩, true) := by
   simp [Gen.introAddrs, Id.run, pure, h]
 
-/-- on_introduction_request answers as long as the node does not hold MORE than max_peers peers -/
-theorem capacity_guard (m n : Nat) : Gen.atCapacity m n = true ↔ m < n := by
+/-- on_introduction_request answers as long as the node does not hold MORE than max_peers peers (negative = unlimited) -/
+theorem capacity_guard (m n : Int) : Gen.atCapacity m n = true ↔ 0 ≤ m ∧ m < n := by
   simp [Gen.atCapacity]
 
 /-- the code's LAN subnet table is exactly RFC 1918, for every 32 bit address (and beyond) -/
